@@ -41,7 +41,8 @@ func genLim(t *rapid.T) LimCase {
 	if unit == "s" && rapid.IntRange(0, 4).Draw(t, "compound") == 0 {
 		c.Interval = fmt.Sprintf("%ds%dms", n, rapid.IntRange(1, 999).Draw(t, "ms"))
 	}
-	c.Burst = rapid.IntRange(1, 10).Draw(t, "burst")
+	// (0: one execution at a time, as the limiter's default; the loader rejects settings without executionBurst)
+	c.Burst = rapid.SampledFrom([]int{0, 0, 1, 1, 2, 3, 4, 5, 6, 7, 8, 9, 10}).Draw(t, "burst")
 	iv, _ := time.ParseDuration(c.Interval)
 	k := rapid.IntRange(2, 60).Draw(t, "k")
 	for i := 0; i < k; i++ {
@@ -63,7 +64,10 @@ func runLim(c LimCase) (ev.Info, error) {
 	info := ev.Info{}
 	d := hcfg.D{OnStartup: hcfg.I(1)}
 	if c.HasSettings {
-		d.Settings = &hcfg.Settings{Interval: c.Interval, Burst: c.Burst}
+		d.Settings = &hcfg.Settings{Interval: c.Interval}
+		if c.Burst >= 0 {
+			d.Settings.Burst = hcfg.I(c.Burst)
+		}
 	}
 	text := d.JSON()
 	if c.YAML {
@@ -97,7 +101,13 @@ func runLim(c LimCase) (ev.Info, error) {
 		info.Labels = append(info.Labels, "no-settings")
 		return info, nil
 	}
-	if len(starts) >= c.Burst+2 {
+	// an executionBurst written as 0 stands for one execution at a time
+	B := c.Burst
+	if B < 1 {
+		B = 1
+		info.Labels = append(info.Labels, "burst-zero")
+	}
+	if len(starts) >= B+2 {
 		info.NonTrivial = true
 	}
 	// every window [s_i, s_j]: count <= B + ceil(T/I)
@@ -107,16 +117,16 @@ func runLim(c LimCase) (ev.Info, error) {
 			if T < 0 {
 				return info, fmt.Errorf("execution %d is granted before execution %d", j, i)
 			}
-			bound := c.Burst + int(math.Ceil(float64(T)/float64(iv)))
+			bound := B + int(math.Ceil(float64(T)/float64(iv)))
 			if n := j - i + 1; n > bound {
-				return info, fmt.Errorf("%d executions start within a window of %s (executions %d..%d), limit is burst %d + ceil(T/I) = %d for interval %s", n, T, i, j, c.Burst, bound, iv)
+				return info, fmt.Errorf("%d executions start within a window of %s (executions %d..%d), limit is burst %d + ceil(T/I) = %d for interval %s", n, T, i, j, B, bound, iv)
 			}
 		}
 	}
 	return info, nil
 }
 
-const ruleLim = "settings (executionMinInterval as 'Nus/ms/s/m' or compound, executionBurst 1..10, or no settings) rendered as JSON or YAML, loaded by LoadAndValidate, limiter taken from the real CreateRateLimiter and driven with synthetic time through ReserveN over generated arrival patterns (bursts, steady streams, pauses; 2-60 arrivals); every window of grant times must satisfy count <= B + ceil(T/I); without settings every arrival is granted immediately. Non-trivial: >= B+2 executions of a limited hook."
+const ruleLim = "settings (executionMinInterval as 'Nus/ms/s/m' or compound, executionBurst 1..10 or 0 (one at a time), or no settings) rendered as JSON or YAML, loaded by LoadAndValidate, limiter taken from the real CreateRateLimiter and driven with synthetic time through ReserveN over generated arrival patterns (bursts, steady streams, pauses; 2-60 arrivals); every window of grant times must satisfy count <= B + ceil(T/I); without settings every arrival is granted immediately. Non-trivial: >= B+2 executions of a limited hook."
 
 func TestLimiter(t *testing.T) {
 	ev.Main(t, ev.Spec[LimCase]{Property: "C18", Part: "limiter", Rule: ruleLim, Gen: genLim, Run: runLim})
